@@ -1,6 +1,7 @@
 package checks
 
 import (
+	"bytes"
 	"encoding/json"
 	"errors"
 	"fmt"
@@ -63,7 +64,7 @@ func (c c16) Run(ctx *core.Ctx) error {
 		maxN, allUpTo = 7, 5
 	}
 	var cases []json.RawMessage
-	for _, cmp := range []string{"int", "string", "bytes", "intdiff"} {
+	for _, cmp := range []string{"int", "string", "bytes", "intdiff", "bytesprefix"} {
 		for n := 0; n <= maxN; n++ {
 			for _, p := range permutations(n) {
 				if n <= allUpTo {
@@ -106,7 +107,7 @@ func (c c16) Run(ctx *core.Ctx) error {
 			cases = append(cases, core.J(c16Case{Kind: "heapfault", K: k, First: first, U: 4}))
 		}
 	}
-	ctx.Ev.Rule = "skip list: every permutation of n distinct keys x tower-height vectors (all vectors over {1,2,3,12} for small n, four fixed families beyond) x {int,string,bytes} comparator; a state is distinct by its key->height layout, non-trivial = n>=2; every universe key (present, absent, below, above) is probed with Size/Contains/Get/Iterator/IteratorStartingAt/IteratorBetween(all pairs). heap: every list of k inputs, each an ascending subset of the key universe; plus an error injected at every Next position of every input"
+	ctx.Ev.Rule = "skip list: every permutation of n distinct keys x tower-height vectors (all vectors over {1,2,3,12} for small n, four fixed families beyond) x {int, string, bytes, int-difference, bytes over prefix keys sharing one backing array} comparator; a state is distinct by its key->height layout, non-trivial = n>=2; every universe key (present, absent, below, above) is probed with Size/Contains/Get/Iterator/IteratorStartingAt/IteratorBetween(all pairs). heap: every list of k inputs, each an ascending subset of the key universe; plus an error injected at every Next position of every input"
 	ctx.Ev.Bounds["skiplist_max_n"] = maxN
 	ctx.Ev.Bounds["skiplist_all_height_vectors_up_to_n"] = allUpTo
 	ctx.Ev.Bounds["heap_max_inputs"] = heapK
@@ -197,6 +198,9 @@ func (c c16) skipCase(cs c16Case) core.Result {
 				}
 				return []byte{byte(0x90 + u/2), byte(u % 2 * 0x8d)}
 			}, &r)
+		case "bytesprefix":
+			// keys that are prefixes of one another and share one backing array (sub-slices of one caller buffer)
+			mism = runSkip[[]byte](cs, hv, skiplist.BytesComparator{}, func(u int) []byte { return c16Shared[:u] }, &r)
 		}
 		// layout = key -> height (independent of the insertion order)
 		lay := make([]string, n)
@@ -224,6 +228,8 @@ func (c c16) skipCase(cs c16Case) core.Result {
 	}
 	return r
 }
+
+var c16Shared = bytes.Repeat([]byte("a"), 64)
 
 func runSkip[K any](cs c16Case, hv []int, cmp skiplist.Comparator[K], key func(u int) K, r *core.Result) (mism []string) {
 	defer func() {
